@@ -47,11 +47,14 @@ class Topology:
       segment = self.try_get_segment(segment)
     if segment._connectivity() in [(0,0),(0,1),(1,0)]:
       return False
-    start_points = set()
+    start_points = []
     for et in ["L", "R"]:
       for l in segment.dovetails_of_end(et):
-        start_points.add(l.other_end(\
-            gfapy.SegmentEnd(segment.name, et)).inverted())
+        start_point = l.other_end(\
+            gfapy.SegmentEnd(segment.name, et)).inverted()
+        # (segment ends are not hashable)
+        if start_point not in start_points:
+          start_points.append(start_point)
     cc = []
     for start_point in start_points:
       cc.append(set())
